@@ -13,6 +13,7 @@ from ..explore import Acc, digest
 from ..harness import Exec, actor_log
 from ..scenario import fixed_policy, run_worker
 from ..vloop import NS
+from ..world import params_view
 
 ID = "C10"
 LEVEL = "model_checking"
@@ -56,11 +57,12 @@ def durations(cell):
     return [DUR[cell["prof"]]] * n
 
 
-def execute(cell):
+def execute(cell, late_at=None, probe=None):
     if cell["plugin"]:
         return execute_plugin(cell)
     durs = durations(cell)
     queues = ["q", "q2"][: cell["nq"]]
+    late_p0 = {}
 
     def build(x, worker):
         w = x.world
@@ -83,7 +85,36 @@ def execute(cell):
         q = queues[i % len(queues)]
         msgs.append(dict(id=f"m{i}", topic=f"job_{q}", queue=q, payload='{"i":%d}' % i,
                          params=lambda w: w.params(retries=2, timeout=100.0)))
-    res = run_worker(cell["kind"], build=build, messages=msgs, queues=queues, stop_mode="self",
+    inject = during = None
+    if cell.get("late"):
+        # the worker starts one message short of its limit; the last two arrive later
+        late, msgs = msgs[-2:], msgs[:-2]
+
+        async def put(x):
+            w = x.world
+            for m_ in late:
+                p_ = m_["params"](w)
+                late_p0[m_["id"]] = params_view(p_)
+                await w.broker.enqueue(w.key(m_["id"], m_["topic"], m_["queue"]), m_["payload"], p_)
+
+        if late_at is None:
+            async def during(x):
+                await asyncio.sleep(0.03)
+                probe.append(x.rel_iter)
+                await put(x)
+        else:
+            def inject(x):
+                fired = []
+
+                def fire():
+                    if not fired:
+                        fired.append(1)
+                        asyncio.ensure_future(put(x), loop=x.loop)
+
+                x.at_iteration(late_at, fire)
+                # an idle push-based worker goes quiescent: iterations that never come fall back to 30 ms
+                x.loop.call_later(0.03, fire)
+    res = run_worker(cell["kind"], build=build, messages=msgs, queues=queues, stop_mode="self", inject=inject, during=during,
                      worker_kw=dict(messages_limit=cell["M"], tasks_limit=cell["tl"], graceful_shutdown_time=5.0),
                      max_iters=200_000, settle=1.0, fail_calls=[cell["fault"]] if cell.get("fault") else None)
     viol = []
@@ -104,6 +135,7 @@ def execute(cell):
             if (res.ret_ns - mth) / NS > 0.5 + 5 + 1:
                 viol.append(("late-return", f"run() returned {(res.ret_ns - mth) / NS:.2f}s after execution {M} finished"))
     done = {r[3] for r in oks}
+    res.p0.update(late_p0)
     if cell.get("fault"):
         # the message whose ack failed stays in flight / is not removed: only the counts are judged
         summary = dict(started=started_ids, finished=sorted(done))
@@ -194,23 +226,36 @@ def execute_plugin(cell):
 def jobs(tier):
     cs = cells(tier)
     n = 10
-    return [dict(cells=cs[i:i + n]) for i in range(0, len(cs), n)]
+    out = [dict(cells=cs[i:i + n]) for i in range(0, len(cs), n)]
+    # sweep: the worker is one message short of its limit; two more arrive at every iteration
+    for kind in ("mem", "redis", "amqp"):
+        for M in (1, 2, 3) if tier == "thorough" else (1, 2):
+            for tl in (1, 2):
+                for prof in ("short", "zero") if tier == "thorough" else ("short",):
+                    cell = dict(kind=kind, M=M, backlog=M + 1, prof=prof, tl=tl, nq=1, plugin=None, late=True)
+                    probe = []
+                    execute(cell, None, probe)
+                    ks = list(range(0, probe[0] + 1))
+                    for lo in range(0, len(ks), 40):
+                        out.append(dict(sweep=cell, ks=ks[lo:lo + 40]))
+    return out
 
 
 def run_job(job):
     acc = Acc()
-    for cell in job["cells"]:
-        res, viol, summary = execute(cell)
+    todo = [(c, None) for c in job.get("cells", [])] + [(job["sweep"], k) for k in job.get("ks", [])]
+    for cell, k in todo:
+        res, viol, summary = execute(cell, k, [])
         acc.executions += 1
         acc.handles += res.handles
         acc.choice_points += 1
-        acc.outcomes.add(digest([cell, summary]))
-        acc.phases["plugin" if cell["plugin"] else cell["prof"]] += 1
+        acc.outcomes.add(digest([cell, k is not None, summary]))
+        acc.phases["plugin" if cell["plugin"] else "late-arrival" if cell.get("late") else cell["prof"]] += 1
         for sig, what in viol:
             acc.violations.append(dict(
                 signature=f"{cell['kind']} {sig}",
-                what=what + f" [cell {cell}]",
-                job=dict(cells=[cell]),
+                what=what + f" [cell {cell}, late messages at iteration {k}]",
+                job=dict(cells=[cell]) if k is None else dict(sweep=cell, ks=[k]),
                 detail=summary,
             ))
         if len(acc.samples) < 2:
